@@ -4,6 +4,7 @@ import (
 	"fmt"
 	"go/token"
 	"go/types"
+	"regexp"
 	"sort"
 	"strings"
 
@@ -148,9 +149,7 @@ func verifyFunction(w *World, ss *SpecSet, fn *ssa.Function, spec *FuncSpec) (re
 			if l.Name != u {
 				continue
 			}
-			env := &SpecEnv{ex: e, st: st, old: st, vars: map[string]Val{}, spec: &FuncSpec{Pkg: l.Pkg}, nextRef0: e.nextRef0}
-			v := env.eval(l.E)
-			e.ctx.assumeGlobal(v.T)
+			e.ctx.assumeGlobal(e.lemmaTerm(l, st))
 			e.trust("AXIOM " + l.Name + " (" + l.Line + "): " + l.Src + " (assumed; defines a specification function)")
 		}
 	}
@@ -318,4 +317,39 @@ func verifyLemma(w *World, ss *SpecSet, spec *FuncSpec, key string) (res *FuncRe
 	}
 	sort.Strings(res.Assumed)
 	return
+}
+
+// lemmaTerm evaluates a definitional axiom so that it holds for every heap:
+// the element and field heaps it reads (directly or through the `reads`
+// clause of a specification function) are replaced by bound variables.
+func (e *Exec) lemmaTerm(l *Lemma, st *State) string {
+	mk := func(s *State) string {
+		env := &SpecEnv{ex: e, st: s, old: s, vars: map[string]Val{}, spec: &FuncSpec{Pkg: l.Pkg}, nextRef0: e.nextRef0}
+		return env.eval(l.E).T
+	}
+	mk(st) // registers the heaps the axiom mentions
+	s2 := st.clone()
+	names := make([]string, 0, len(e.heapInfos))
+	for name, hi := range e.heapInfos {
+		if hi.kind == 'E' || hi.kind == 'H' {
+			names = append(names, name)
+		}
+	}
+	sort.Strings(names)
+	ph := map[string]string{}
+	for i, name := range names {
+		ph[name] = fmt.Sprintf("hq!%d", i)
+		s2.heaps[name] = ph[name]
+	}
+	t := mk(s2)
+	var bind []string
+	for _, name := range names {
+		if regexp.MustCompile(regexp.QuoteMeta(ph[name]) + `[ )]`).MatchString(t + " ") {
+			bind = append(bind, fmt.Sprintf("(%s %s)", ph[name], e.heapInfos[name].sort))
+		}
+	}
+	if len(bind) == 0 {
+		return t
+	}
+	return fmt.Sprintf("(forall (%s) %s)", strings.Join(bind, " "), t)
 }
